@@ -486,8 +486,31 @@ def gen_rnds(rng, n):
 API_STATUSES = [429, 502, 503, 504, 400, 404, 409, 500, 501, 408, 401, 403, 505, 428, 430, 200, 599]
 
 
+ITEM_COUNTS = [0, 1, 2, 3, 4, 5, 9, 10, 11, 12, 13, 20, 21, 50, 99, 100, 101, 128, 257]
+UNRETRYABLE_ITEMS = [[409, "index"], [400, "index"], [None, "nostatus"], [429, "create"], [500, "index"], [None, "index"], [404, "index:typeonly"], [200, "index:noerror"]]
+
+
 def gen_items(rng, n, statuses):
     return [[rng.choice(statuses), rng.choice(ITEM_DECOS)] for _ in range(n)]
+
+
+def gen_item_count(rng):
+    """how many items a bulk error reports: small, and at / around / far beyond every constant of the code"""
+    return rng.choice([0, 1, 2, 3]) if rng.random() < 0.5 else rng.choice(ITEM_COUNTS)
+
+
+def long_bulk_family():
+    """bulk errors of every length in ITEM_COUNTS: all items retryable, and exactly one non-retryable item at every
+    interesting position (first, around 10 / 11 / 100, middle, the last two)"""
+    fam = []
+    for n in ITEM_COUNTS:
+        fam.append(["bulk", [[RETRYABLE[j % 4], "index"] for j in range(n)]])
+        for pos in sorted({p for p in (0, 1, n // 2, 8, 9, 10, 11, 12, 98, 99, 100, 101, n - 2, n - 1) if 0 <= p < n}):
+            items = [[RETRYABLE[j % 4], "index"] for j in range(n)]
+            items[pos] = list(UNRETRYABLE_ITEMS[(n + pos) % len(UNRETRYABLE_ITEMS)])
+            fam.append(["bulk", items])
+    return fam
+
 
 
 def gen_outcome(rng, transient_bias):
@@ -500,7 +523,7 @@ def gen_outcome(rng, transient_bias):
             return ["connError", rng.randrange(NV)]
         if c == 2:
             return ["api", rng.choice(RETRYABLE), rng.randrange(NV)]
-        return ["bulk", gen_items(rng, rng.randrange(0, 4), RETRYABLE)]
+        return ["bulk", gen_items(rng, gen_item_count(rng), RETRYABLE)]
     c = rng.randrange(9)
     if c == 0:
         return ["success"]
@@ -509,10 +532,15 @@ def gen_outcome(rng, transient_bias):
     if c == 2:
         return ["authz", rng.randrange(NV)]
     if c == 3:
-        n = rng.randrange(1, 5)
+        n = max(1, gen_item_count(rng))
         items = gen_items(rng, n, RETRYABLE)
-        j = rng.randrange(n)
-        items[j] = rng.choice([[409, rng.choice(ITEM_DECOS)], [400, "index"], [None, "nostatus"], [429, "create"], [500, rng.choice(ITEM_DECOS)], [None, "index"], [200, "index:noerror"]])
+        # the offending item anywhere, the last positions and the positions around 10 / 100 as likely as the first ones
+        j = rng.choice([rng.randrange(n), n - 1, max(0, n - 2), min(n - 1, 9), min(n - 1, 10), min(n - 1, 11), min(n - 1, 100)])
+        items[j] = list(rng.choice(UNRETRYABLE_ITEMS))
+        if items[j][1].startswith("index") and items[j][1] == "index":
+            items[j][1] = rng.choice(ITEM_DECOS)
+        if rng.random() < 0.2:
+            items[rng.randrange(n)] = list(rng.choice(UNRETRYABLE_ITEMS))
         return ["bulk", items]
     if c in (4, 5):
         return ["api", rng.choice(API_STATUSES), rng.randrange(NV)]
@@ -572,7 +600,15 @@ def gen_exhaustive(ctx):
                     continue
                 outs = [vary(TRANSIENTS[(t0 + j * (1 + t0)) % len(TRANSIENTS)], i * 5 + j * 13) for j in range(n)] + ([vary(x, i)] if x else [])
                 yield {"outs": outs, "rnd": [RND_POOL[(i + j) % len(RND_POOL)] for j in range(n + 2)]}
-    ctx.notes["scope"] = f"all outcome sequences of length <= {L} over {len(CLASSES)} classes + budget-boundary family (8..12 transient faults then each class)"
+    for b in long_bulk_family():
+        for prefix in (0, 1, 9, 10):
+            i += 1
+            if i % ctx.nshards != ctx.shard:
+                continue
+            outs = [vary(TRANSIENTS[(i + j) % len(TRANSIENTS)], i + j) for j in range(prefix)] + [vary(b, i)] + [["success"]]
+            yield {"outs": outs, "rnd": [RND_POOL[(i + j) % len(RND_POOL)] for j in range(prefix + 3)]}
+    ctx.notes["scope"] = (f"all outcome sequences of length <= {L} over {len(CLASSES)} classes + budget-boundary family (8..12 transient faults then each class) + "
+                          f"bulk errors with {ITEM_COUNTS} items, all retryable / one non-retryable item at every boundary position, after 0/1/9/10 transient faults")
 
 
 def run_guarded(ctx, case):
@@ -601,6 +637,12 @@ def run_guarded(ctx, case):
         ctx.count("random-draws-differ-from-iterations")
     kind = judge(ctx, outs, rnds, obs, "scripted_operation")
     for o in outs[: obs["trace"].count("c")]:
+        if o[0] == "bulk":
+            n = len(o[1])
+            bucket = lambda v: str(v) if v <= 4 else "5-9" if v <= 9 else str(v) if v <= 12 else "13-98" if v <= 98 else "99-101" if v <= 101 else ">101"
+            ctx.count("bulk-item-count:" + bucket(n))
+            bad = [j for j, st in enumerate(model_statuses(o[1])) if st not in RETRYABLE]
+            ctx.count("bulk-first-offender:" + ("none" if not bad else ("last" if bad[0] == n - 1 and n > 1 else "pos " + bucket(bad[0]))))
         if o[0] in ("api", "authn", "authz"):
             ctx.count("api-body-shape:%02d" % (o[-1] % 13))
         elif o[0] == "bulk":
@@ -662,6 +704,10 @@ def gen_methods(ctx):
                 i += 1
                 outs = [vary(TRANSIENTS[(i + j) % len(TRANSIENTS)], i * 5 + j * 13) for j in range(n)] + ([vary(x, i)] if x else [])
                 yield {"method": name, "outs": outs, "rnd": gen_rnds(rng, n + 2)}
+        if name in ("bulk_index", "index"):
+            for b in long_bulk_family():
+                i += 1
+                yield {"method": name, "outs": [vary(b, i), ["success"]], "rnd": gen_rnds(rng, 3)}
         for _ in range(max(0, ctx.budget // max(1, (len(methods) + ctx.nshards - 1) // ctx.nshards) - len(short) - 36)):
             n = rng.choice([1, 2, 3, 5, 10, 11, 12])
             outs = [gen_outcome(rng, 0.85) for _ in range(n)]
@@ -822,6 +868,16 @@ def gen_store_histories(ctx):
                     else:
                         steps += [{"k": "close", "bulk": [vary(TRANSIENT_FOR_STORE[i % 4], i)], "refr": []}]
                     yield {"steps": steps, "rnd": [RND_POOL[(i + j) % len(RND_POOL)] for j in range(60)]}
+    for b in long_bulk_family():
+        n = len(b[1])
+        if n == 0 or n > 130:
+            continue
+        i += 1
+        if i % ctx.nshards != ctx.shard:
+            continue
+        # as many documents as item errors, so that the bulk response reports exactly this list
+        yield {"steps": [{"k": "put", "n": n}, {"k": "flush", "refresh": i % 2 == 0, "bulk": [vary(b, i)], "refr": []}, {"k": "put", "n": 1}, {"k": "close", "bulk": [], "refr": []}],
+               "rnd": [RND_POOL[(i + j) % len(RND_POOL)] for j in range(40)]}
     for _ in range(ctx.budget):
         steps = []
         for _j in range(rng.choice([2, 3, 4, 5, 7])):
@@ -858,7 +914,9 @@ def run_store_history(ctx, case):
                 return elastic_transport.ObjectApiResponse(body={"took": 1, "errors": False, "items": [{"index": {"_id": str(j), "status": 201}} for j in range(len(docs))]}, meta=_meta(200))
             if o[0] == "bulk":
                 # every document of the request is rejected (per-item statuses repeated over the documents)
+                # what Elasticsearch can report under 'index' through the real helper: a non-2xx status per rejected document
                 items = [list(o[1][j % len(o[1])]) for j in range(len(docs))]
+                items = [[st if (st is not None and not 200 <= st < 300) else 500, sh if sh.startswith("index") else "index"] for st, sh in items]
                 cur["eff_bulk"].append(["bulk", items])
                 return elastic_transport.ObjectApiResponse(body={"took": 1, "errors": True, "items": bulk_items(items)}, meta=_meta(200))
             cur["eff_bulk"].append(o)
